@@ -34,9 +34,9 @@ def impl_context(template_text_before):
     return cur
 
 
-def generate(unit, snapshot, out_path, canary=False):
+def generate(unit, snapshot, out_path, canary=False, force_stub=None):
     tpl = os.path.join(UNITS, unit + '.rs')
-    text, metas = extract.build_unit(tpl, UNITS, snapshot, canary=canary)
+    text, metas = extract.build_unit(tpl, UNITS, snapshot, canary=canary, force_stub=force_stub)
     lines = text.split('\n')
     skipped = [m for m in metas if m.get('skipped')]
     metas[:] = [m for m in metas if not m.get('skipped')]   # (in place: keeps metas.lemma_canaries)
@@ -55,10 +55,10 @@ def _fn_of_line(metas, line):
     return None
 
 
-def run(unit, snapshot, outdir, canary=False, rlimit=None, seed=None, timeout_s=900):
+def run(unit, snapshot, outdir, canary=False, rlimit=None, seed=None, timeout_s=900, force_stub=None):
     out_path = os.path.join(outdir, unit + ('_canary' if canary else '') + ('_seed%d' % seed if seed else '') + '.rs')
     t0 = time.time()
-    text, metas = generate(unit, snapshot, out_path, canary=canary)
+    text, metas = generate(unit, snapshot, out_path, canary=canary, force_stub=force_stub)
     cmd = ['verus', out_path, '--output-json', '--time', '--multiple-errors', '50', '--error-format=json',
            '--triggers-mode', 'silent']
     if rlimit:
@@ -139,6 +139,20 @@ def run(unit, snapshot, outdir, canary=False, rlimit=None, seed=None, timeout_s=
             e['kind'] = 'other'
             res['other_errors'].append(e)
     res['compile_error'] = bool(res['other_errors']) or js is None or (res.get('verified') is None)
+    if res['compile_error'] and res['other_errors'] and len(force_stub or {}) < 4:
+        # function-local fallback: when everything the compiler / Verus front end rejects lies inside extracted function bodies, those
+        # functions are kept as contract-only stubs (reported UNDECIDED by the check) and the rest of the unit is verified
+        by_qual = {m['qual']: m for m in metas}
+        bad = {}
+        for e in res['other_errors']:
+            m = by_qual.get(e['fn']) if e['fn'] else None
+            if m is None or m.get('stub') or m.get('item') or m.get('fallback'):
+                bad = None
+                break
+            bad.setdefault(e['fn'], 'verus rejected the extracted body: ' + e['message'][:160])
+        if bad:
+            fs = dict(force_stub or {}); fs.update(bad)
+            return run(unit, snapshot, outdir, canary=canary, rlimit=rlimit, seed=seed, timeout_s=timeout_s, force_stub=fs)
     if js is None:
         res['stderr_tail'] = stderr[-3000:]
     res['wall_s'] = round(time.time() - t0, 1)
